@@ -32,7 +32,9 @@ MODES = {"p": ["-fp"], "y": ["-fy"], "yD": ["-fyD"], "b2e": ["-fy", "-E", "bmap2
 MODE_ORDER = ["p", "y", "yD", "b2e", "fo"]
 MC_DEVS = (("MC_FsckPreserve_devcoll.cfg", "DevRehashDropsCollision", "TreeUnchanged"), ("MC_FsckPreserve_devbound.cfg", "DevRehashDropsBoundary", "TreeUnchanged"),
            ("MC_FsckPreserve_devrebuild.cfg", "DevRebuildDropsLast", "TreeUnchanged"), ("MC_FsckPreserve_devcsum.cfg", "DevCsumClearsLeaf", "TreeUnchanged"),
-           ("MC_FsckPreserve_devsbcsum.cfg", "DevSbCsumRefuses", "ExitOK"), ("MC_FsckPreserve_devuninit.cfg", "DevInodeUninitWipes", "TreeUnchanged"))
+           ("MC_FsckPreserve_devsbcsum.cfg", "DevSbCsumRefuses", "ExitOK"), ("MC_FsckPreserve_devuninit.cfg", "DevInodeUninitWipes", "TreeUnchanged"),
+           ("MC_FsckPreserve_devmergestate.cfg", "DevRebuildMergesAcrossState", "TreeUnchanged"), ("MC_FsckPreserve_devenc.cfg", "DevEncCheckIgnoresStrict", "TreeUnchanged"),
+           ("MC_FsckPreserve_devdupfold.cfg", "DevDupFoldsPlainDir", "TreeUnchanged"))
 
 
 # ------------------------------------------------------------------------------------------------------------------
@@ -79,14 +81,15 @@ def reader_crosscheck(b, img, name, work):
         shutil.rmtree(dest, ignore_errors=True)
         return 0, ["debugfs rdump exit %d" % rc]
     got = {}
-    for d, ds, fs in os.walk(dest):
-        rel = "/" + os.path.relpath(d, dest).replace(os.sep, "/") if d != dest else "/"
+    bdest = os.fsencode(dest)
+    for d, ds, fs in os.walk(bdest):                 # names are byte strings (casefold family: not all of them are UTF-8)
+        rel = "/" + "/".join(ext4read.jname(c) for c in os.path.relpath(d, bdest).split(b"/")) if d != bdest else "/"
         got[rel] = ("dir",)
         for f in fs + [x for x in ds if os.path.islink(os.path.join(d, x))]:
             pth = os.path.join(d, f)
-            r = rel.rstrip("/") + "/" + f
+            r = rel.rstrip("/") + "/" + ext4read.jname(f)
             if os.path.islink(pth):
-                got[r] = ("lnk", os.readlink(pth))
+                got[r] = ("lnk", os.fsdecode(os.readlink(pth)))
             elif os.path.isfile(pth):
                 with open(pth, "rb") as fh:
                     got[r] = ("reg", "sha256:" + hashlib.sha256(fh.read()).hexdigest())
@@ -230,10 +233,14 @@ def validate(behaviours, work, tag="t", max_states=24, timeout=1500):
 # ------------------------------------------------------------------------------------------------------------------
 def model_check(tier, ev, vd):
     mod = os.path.join(SPEC, "FsckPreserve.tla")
-    cfgs = ["MC_FsckPreserve_dir.cfg", "MC_FsckPreserve_map_q.cfg"] if tier == "quick" else ["MC_FsckPreserve_dir_t.cfg", "MC_FsckPreserve_map_t.cfg"]
+    # dir / map: names, collisions, leaf boundaries, block map vs extents, spill into a leaf, summary damage; dircf: casefold flag x strict
+    # mode x invalid names x case twins; mapst: written / unwritten extents in trees that e2fsck rebuilds (InitStatePreserved)
+    cfgs = (["MC_FsckPreserve_dir.cfg", "MC_FsckPreserve_map_q.cfg", "MC_FsckPreserve_dircf.cfg", "MC_FsckPreserve_mapst.cfg"] if tier == "quick" else
+            ["MC_FsckPreserve_dir_t.cfg", "MC_FsckPreserve_map_t.cfg", "MC_FsckPreserve_dircf_t.cfg", "MC_FsckPreserve_mapst.cfg"])
     for c in cfgs:
         r = T.tlc(mod, os.path.join(SPEC, c), workers=4, timeout=2400, xmx="4g")
-        ev.add_tlc(r, "%s: every consistent start, <= MaxDamage summary corruptions, <= 2 runs in any mode; TreeUnchanged, ExitOK, ConsistentAfter, ModeScope, ContractRefined" % c)
+        ev.add_tlc(r, "%s: every consistent start, <= MaxDamage summary corruptions, <= 2 runs in any mode; TreeUnchanged, ExitOK, ConsistentAfter, ModeScope, ContractRefined%s"
+                   % (c, ", InitStatePreserved" if "map" in c else ""))
         if r.violated:
             vd.violation("model:%s:%s" % (c, r.violated), "FsckPreserve (%s): %s violated by the repaired design" % (c, r.violated), {"tlc": r.out[-4000:]})
         elif not r.ok:
@@ -275,7 +282,10 @@ def plan(tier, b, basedir, profiles, fam, univ, rng):
     # (a): every image x every mode, each on a fresh copy; thorough adds every ordered pair of modes run back to back
     for path, name in images:
         sc = [[None, [m]] for m in MODE_ORDER]
-        if tier == "thorough":
+        small = name.split(":")[1].split("_")[0] in ("st", "cf", "cfs")          # the small carriers of the extent-state / casefold families
+        if small and tier == "quick":
+            pass                                                                  # five modes on fresh copies; sequences in the thorough tier
+        elif tier == "thorough":
             sc += [[None, [m1, m2]] for m1 in ("yD", "b2e") for m2 in MODE_ORDER]
         else:
             sc += [[None, ["yD", "b2e"]]]
@@ -384,6 +394,9 @@ def run(tier):
             mc.result()
         # ---- reader sanity: the scratch-built debugfs reads the same names, bytes and symlink targets
         xc_imgs = [(os.path.join(basedir, p + ".img"), "base:" + p) for p in (rng.sample(profiles, min(3, len(profiles))) if tier == "quick" else profiles)]
+        # unwritten extents (read as zeros by both readers) and names that are not UTF-8
+        xc_imgs += [(f["img"], "family:" + f["name"]) for f in fam
+                    if f["carrier"] in ("st", "cf", "cfs") and (tier != "quick" or f["name"] in ("st_shaped", "cf_linear"))]
         xc = {"images": 0, "paths_compared": 0, "mismatches": []}
         for pth, nm in xc_imgs:
             n, bad = reader_crosscheck(b, pth, nm, work)
